@@ -204,6 +204,27 @@ theorem Coils.items_take (c : Coils) (n : Nat) (hn : c.packedLen ≤ n) :
   unfold Coils.items Coils.iter
   rw [Coils.iterFrom_congr _ c (c.get_take n hn)]
 
+/-- the wire form (`copy_to`: used bytes, padding bits cleared) holds the same coils -/
+theorem Coils.get_wire (c : Coils) (h : c.packedLen ≤ c.data.length) (i : Nat) :
+    (Coils.mk c.wire c.quantity).get i = c.get i := by
+  by_cases hi : i < c.quantity
+  · have hb : c.Backed := h
+    have hpb := packedCoilsLen_bound c.quantity
+    have hd : i / 8 < c.data.length := by unfold Coils.packedLen packedCoilsLen at h; omega
+    have hw : i / 8 < c.wire.length := by
+      rw [Coils.wire_length, Nat.min_eq_left h]; unfold Coils.packedLen packedCoilsLen; omega
+    rw [Coils.get_of_lt ⟨c.wire, c.quantity⟩ hi hw, c.get_of_lt hi hd]
+    have := hb.bitAt_wire i (by omega)
+    simp only [bitAt, List.getD_eq_getElem?_getD, List.getElem?_eq_getElem hw, List.getElem?_eq_getElem hd,
+      Option.getD_some, hi, decide_true, Bool.true_and] at this
+    rw [this]
+  · rw [Coils.get_of_ge ⟨c.wire, c.quantity⟩ (by show c.quantity ≤ i; omega), c.get_of_ge (by omega)]
+
+theorem Coils.items_wire (c : Coils) (h : c.packedLen ≤ c.data.length) :
+    (Coils.mk c.wire c.quantity).items = c.items := by
+  unfold Coils.items Coils.iter
+  rw [Coils.iterFrom_congr _ c (c.get_wire h)]
+
 /-- keeping only the first `n ≥ 2·quantity` bytes of the slice changes no `get` -/
 theorem Data.get_take (d : Data) (n : Nat) (hn : d.quantity * 2 ≤ n) (i : Nat) :
     (Data.mk (d.data.take n) d.quantity).get i = d.get i := by
@@ -234,6 +255,11 @@ def wmcQuantity (b : Bytes) : Nat := (rd16 (b.getD 3 0) (b.getD 4 0)).toNat
 /-- the byte-count field of a write-multiple-coils request, read from the wire bytes -/
 def wmcByteCount (b : Bytes) : Nat := (b.getD 5 0).toNat
 
+/-- the kinds the RESPONSE decoder leaves to its catch-all arm: as `isOther`, minus Read Exception Status -/
+def FunctionCode.isOtherRsp : FunctionCode → Bool
+  | .readExceptionStatus => false
+  | fc => fc.isOther
+
 inductive Request.Decoded (b : Bytes) : Request → Prop
   | readCoils (a q : UInt16) : Request.Decoded b (.readCoils a q)
   | readDiscreteInputs (a q : UInt16) : Request.Decoded b (.readDiscreteInputs a q)
@@ -243,6 +269,7 @@ inductive Request.Decoded (b : Bytes) : Request → Prop
   | writeSingleCoil (a : UInt16) (c : Bool) : Request.Decoded b (.writeSingleCoil a c)
   | writeMultipleCoils (a q : UInt16) :
       b[0]? = some 0x0F → q.toNat = wmcQuantity b → 6 + wmcByteCount b ≤ b.length →
+      packedCoilsLen q.toNat ≤ 255 →
       Request.Decoded b (.writeMultipleCoils a ⟨b.drop 6, q.toNat⟩)
   | writeMultipleRegisters (a q : UInt16) (data : Bytes) :
       data.length = q.toNat * 2 → q.toNat * 2 ≤ 255 →
@@ -292,14 +319,15 @@ theorem Request.decode_inv {b : Bytes} {v : Request} (h : Request.decode b = .ok
     rw [read16_eq_ok (b := b) (i := 1) (by omega), read16_eq_ok (b := b) (i := 3) (by omega),
       idx_eq_ok (b := b) (i := 5) (by omega)] at h
     simp only [Res.bind'_ok] at h
-    by_cases hb : b.length < 6 + b[5].toNat
+    by_cases hb : b.length < 6 + b[5].toNat ∨ packedCoilsLen (rd16 b[3] b[3 + 1]).toNat > 255
     · rw [if_pos hb] at h; cases h
     rw [if_neg hb] at h
     simp only [sliceFrom, if_pos (show 6 ≤ b.length by omega), Res.bind'_ok, Res.ok.injEq] at h
     subst h
-    refine ⟨Request.Decoded.writeMultipleCoils _ _ (head_eq h0 hv) ?_ ?_, head_eq h0 hv⟩
+    refine ⟨Request.Decoded.writeMultipleCoils _ _ (head_eq h0 hv) ?_ ?_ ?_, head_eq h0 hv⟩
     · simp only [wmcQuantity, getD_of_lt b (show 3 < b.length by omega), getD_of_lt b (show 4 < b.length by omega)]
     · simp only [wmcByteCount, getD_of_lt b (show 5 < b.length by omega)]; omega
+    · omega
   case writeMultipleRegisters =>
     rw [read16_eq_ok (b := b) (i := 1) (by omega), read16_eq_ok (b := b) (i := 3) (by omega),
       idx_eq_ok (b := b) (i := 5) (by omega)] at h
@@ -356,7 +384,8 @@ inductive Response.Decoded : Response → Prop
       Response.Decoded (.readHoldingRegisters ⟨data, bc.toNat / 2⟩)
   | readWriteMultipleRegisters (bc : UInt8) (data : Bytes) : data.length = bc.toNat / 2 * 2 →
       Response.Decoded (.readWriteMultipleRegisters ⟨data, bc.toNat / 2⟩)
-  | custom (fc : UInt8) (d : Bytes) : (FunctionCode.new fc).isOther = true →
+  | readExceptionStatus (s : UInt8) : Response.Decoded (.readExceptionStatus s)
+  | custom (fc : UInt8) (d : Bytes) : (FunctionCode.new fc).isOtherRsp = true →
       Response.Decoded (.custom (FunctionCode.new fc) d)
 
 theorem Response.decode_inv {b : Bytes} {v : Response} (h : Response.decode b = .ok v) : Response.Decoded v := by
@@ -400,6 +429,10 @@ theorem Response.decode_inv {b : Bytes} {v : Response} (h : Response.decode b = 
     rw [read16_eq_ok (b := b) (i := 1) (by omega), read16_eq_ok (b := b) (i := 3) (by omega)] at h
     simp only [Res.bind'_ok, Res.ok.injEq] at h
     subst h; constructor
+  case readExceptionStatus =>
+    rw [idx_eq_ok (b := b) (i := 1) (by omega)] at h
+    simp only [Res.bind'_ok, Res.ok.injEq] at h
+    subst h; constructor
   all_goals
     simp only [sliceFrom, if_pos (show 1 ≤ b.length by omega), Res.bind'_ok, Res.ok.injEq] at h
     subst h
@@ -432,12 +465,21 @@ theorem Request.decode_writeSingleCoil_image (a : UInt16) (s : Bool) :
   simp [Request.image, be16, Request.decode, idx, read16, h5, minRequestPduLen, rd16_be16,
     u16CoilToBool_boolToU16Coil]
 
-theorem Request.decode_wmc_bytes (x1 x2 x3 x4 bc : UInt8) (rest : Bytes) (h : bc.toNat ≤ rest.length) :
+theorem Request.decode_wmc_bytes (x1 x2 x3 x4 bc : UInt8) (rest : Bytes) (h : bc.toNat ≤ rest.length)
+    (hq : packedCoilsLen (rd16 x3 x4).toNat ≤ 255) :
     Request.decode (0x0F :: x1 :: x2 :: x3 :: x4 :: bc :: rest) =
       .ok (.writeMultipleCoils (rd16 x1 x2) ⟨rest, (rd16 x3 x4).toNat⟩) := by
   have hfc : FunctionCode.new 0x0F = .writeMultipleCoils := by decide
   simp [Request.decode, idx, read16, hfc, minRequestPduLen, sliceFrom]
   rw [if_neg (by omega), if_neg (by omega)]
+
+/-- a write-multiple-coils quantity whose packed size exceeds the one-byte count field (more than 2040 coils)
+    is refused with `Err(ByteCount)`, however many data bytes follow -/
+theorem Request.decode_wmc_bytes_big (x1 x2 x3 x4 bc : UInt8) (rest : Bytes)
+    (hq : 255 < packedCoilsLen (rd16 x3 x4).toNat) :
+    Request.decode (0x0F :: x1 :: x2 :: x3 :: x4 :: bc :: rest) = .err (.byteCount bc) := by
+  have hfc : FunctionCode.new 0x0F = .writeMultipleCoils := by decide
+  simp [Request.decode, idx, read16, hfc, minRequestPduLen, hq]
 
 theorem Request.decode_wmr_bytes (x1 x2 x3 x4 bc : UInt8) (data : Bytes) (h : bc.toNat = data.length)
     (hq : bc.toNat = (rd16 x3 x4).toNat * 2) :
@@ -463,9 +505,9 @@ theorem Request.decode_custom_bytes (fc : UInt8) (d : Bytes) (hlt : fc < 0x80)
   cases hfc : FunctionCode.new fc <;> simp [hfc, FunctionCode.isOther] at ho <;>
     simp [Request.decode, idx, hfc, minRequestPduLen, sliceFrom, hlt]
 
-theorem Response.decode_custom_bytes (fc : UInt8) (d : Bytes) (ho : (FunctionCode.new fc).isOther = true) :
+theorem Response.decode_custom_bytes (fc : UInt8) (d : Bytes) (ho : (FunctionCode.new fc).isOtherRsp = true) :
     Response.decode (fc :: d) = .ok (.custom (FunctionCode.new fc) d) := by
-  cases hfc : FunctionCode.new fc <;> simp [hfc, FunctionCode.isOther] at ho <;>
+  cases hfc : FunctionCode.new fc <;> simp [hfc, FunctionCode.isOther, FunctionCode.isOtherRsp] at ho <;>
     simp [Response.decode, idx, hfc, minResponsePduLen, sliceFrom]
 
 theorem Response.decode_coils_bytes (bc : UInt8) (data : Bytes) (h : bc.toNat = data.length) :
@@ -495,13 +537,15 @@ theorem Response.decode_fixed_image :
     (∀ a, Response.decode (Response.writeSingleCoil a).image = .ok (.writeSingleCoil a)) ∧
     (∀ a q, Response.decode (Response.writeMultipleCoils a q).image = .ok (.writeMultipleCoils a q)) ∧
     (∀ a q, Response.decode (Response.writeSingleRegister a q).image = .ok (.writeSingleRegister a q)) ∧
-    (∀ a q, Response.decode (Response.writeMultipleRegisters a q).image = .ok (.writeMultipleRegisters a q)) := by
+    (∀ a q, Response.decode (Response.writeMultipleRegisters a q).image = .ok (.writeMultipleRegisters a q)) ∧
+    (∀ s, Response.decode (Response.readExceptionStatus s).image = .ok (.readExceptionStatus s)) := by
+  have h7 : FunctionCode.new 0x07 = .readExceptionStatus := by decide
   have h5 : FunctionCode.new 0x05 = .writeSingleCoil := by decide
   have h6 : FunctionCode.new 0x06 = .writeSingleRegister := by decide
   have hf : FunctionCode.new 0x0F = .writeMultipleCoils := by decide
   have h10 : FunctionCode.new 0x10 = .writeMultipleRegisters := by decide
-  refine ⟨?_, ?_, ?_, ?_⟩ <;> intros <;>
-    simp [Response.image, be16, Response.decode, idx, read16, h5, h6, hf, h10, minResponsePduLen, rd16_be16]
+  refine ⟨?_, ?_, ?_, ?_, ?_⟩ <;> intros <;>
+    simp [Response.image, be16, Response.decode, idx, read16, h5, h6, hf, h10, h7, minResponsePduLen, rd16_be16]
 
 
 /-! ### decoding the wire image of a value (general in the value) -/
@@ -516,13 +560,14 @@ theorem rd16_ofNat_split {n : Nat} (h : n < 65536) :
 theorem Request.redecode_wmc (a : UInt16) (c : Coils) (hq : c.quantity < 65536)
     (h1 : c.packedLen ≤ 255) (h2 : c.packedLen ≤ c.data.length) :
     Request.decode (Request.writeMultipleCoils a c).image =
-      .ok (.writeMultipleCoils a ⟨c.data.take c.packedLen, c.quantity⟩) := by
+      .ok (.writeMultipleCoils a ⟨c.wire, c.quantity⟩) := by
   have himg : (Request.writeMultipleCoils a c).image =
       0x0F :: UInt8.ofNat (a.toNat / 256) :: UInt8.ofNat (a.toNat % 256) ::
         UInt8.ofNat ((UInt16.ofNat c.quantity).toNat / 256) :: UInt8.ofNat ((UInt16.ofNat c.quantity).toNat % 256) ::
-        UInt8.ofNat c.packedLen :: c.data.take c.packedLen := rfl
+        UInt8.ofNat c.packedLen :: c.wire := rfl
   rw [himg, Request.decode_wmc_bytes _ _ _ _ _ _
-    (by rw [UInt8.toNat_ofNat_of_le h1, List.length_take]; omega), rd16_be16, rd16_ofNat_split hq]
+    (by rw [UInt8.toNat_ofNat_of_le h1, Coils.wire_length]; omega)
+    (by rw [rd16_ofNat_split hq]; exact h1), rd16_be16, rd16_ofNat_split hq]
 
 theorem Request.redecode_wmr (a : UInt16) (d : Data) (hq : d.quantity < 65536)
     (h1 : d.quantity * 2 ≤ 255) (h2 : d.data.length = d.quantity * 2) :
@@ -552,12 +597,12 @@ theorem Request.redecode_rwmr (ra rq wa : UInt16) (d : Data) (hq : d.quantity < 
 
 theorem Response.redecode_coils (c : Coils) (h1 : c.packedLen ≤ 255) (h2 : c.packedLen ≤ c.data.length) :
     Response.decode (Response.readCoils c).image =
-      .ok (.readCoils ⟨c.data.take c.packedLen, c.packedLen * 8⟩) ∧
+      .ok (.readCoils ⟨c.wire, c.packedLen * 8⟩) ∧
     Response.decode (Response.readDiscreteInputs c).image =
-      .ok (.readDiscreteInputs ⟨c.data.take c.packedLen, c.packedLen * 8⟩) := by
-  have hl : (UInt8.ofNat c.packedLen).toNat = (c.data.take c.packedLen).length := by
-    rw [UInt8.toNat_ofNat_of_le h1, List.length_take]; omega
-  have := Response.decode_coils_bytes (UInt8.ofNat c.packedLen) (c.data.take c.packedLen) hl
+      .ok (.readDiscreteInputs ⟨c.wire, c.packedLen * 8⟩) := by
+  have hl : (UInt8.ofNat c.packedLen).toNat = c.wire.length := by
+    rw [UInt8.toNat_ofNat_of_le h1, Coils.wire_length]; omega
+  have := Response.decode_coils_bytes (UInt8.ofNat c.packedLen) c.wire hl
   rw [UInt8.toNat_ofNat_of_le h1] at this
   exact this
 
@@ -666,6 +711,16 @@ theorem Request.Decoded.encodable {b : Bytes} {v : Request} (hd : Request.Decode
   | readWriteMultipleRegisters ra rq wa q data h1 h2 => exact h2
   | _ => trivial
 
+/-- outside the TRUNCATED class (the container holds the bytes its quantity promises) a decoded request is
+    encodable: the decoder refuses quantities whose packed size does not fit the count field -/
+theorem Request.Decoded.encodable_of_payloadOk {b : Bytes} {v : Request} (hd : Request.Decoded b v)
+    (hp : v.PayloadOk) : v.Encodable := by
+  cases hd with
+  | writeMultipleCoils a q h0 hq hl h255 => exact ⟨h255, hp⟩
+  | writeMultipleRegisters a q data h1 h2 => exact h2
+  | readWriteMultipleRegisters ra rq wa q data h1 h2 => exact h2
+  | _ => trivial
+
 /-- a write-multiple-coils value of more than 2040 coils is refused by the encoder (an error, not a panic) -/
 theorem Request.encode_wmc_big (a : UInt16) (c : Coils) (h : 255 < c.packedLen) (buf : Bytes) :
     (Request.writeMultipleCoils a c).encode buf = .err .bufferSize := by
@@ -710,7 +765,7 @@ theorem Request.Decoded.redecode {b : Bytes} {v : Request} (hd : Request.Decoded
     obtain ⟨h1, h2⟩ := he
     refine ⟨_, Request.redecode_wmc a _ (by have := q.toNat_lt; simpa using this) h1 h2, ?_⟩
     show (Coils.items _).map _ = (Coils.items _).map _
-    rw [Coils.items_take _ _ (Nat.le_refl _)]
+    rw [Coils.items_wire ⟨b.drop 6, q.toNat⟩ h2]
   | writeMultipleRegisters a q data h1 h2 =>
     exact ⟨_, Request.redecode_wmr a _ (by have := q.toNat_lt; simpa using this) h2 h1, rfl⟩
   | readWriteMultipleRegisters ra rq wa q data h1 h2 =>
@@ -772,7 +827,7 @@ theorem Response.Decoded.redecode {v : Response} (hd : Response.Decoded v) :
       show packedCoilsLen (bc.toNat * 8) * 8 = _; unfold packedCoilsLen; omega
     rw [hq]
     show (Coils.items _).map _ = (Coils.items _).map _
-    rw [Coils.items_take ⟨data, bc.toNat * 8⟩ _ (Nat.le_refl _)]
+    rw [Coils.items_wire ⟨data, bc.toNat * 8⟩ h2]
   | readDiscreteInputs bc data h =>
     obtain ⟨h1, h2⟩ := he
     refine ⟨_, (Response.redecode_coils _ h1 h2).2, ?_⟩
@@ -780,7 +835,7 @@ theorem Response.Decoded.redecode {v : Response} (hd : Response.Decoded v) :
       show packedCoilsLen (bc.toNat * 8) * 8 = _; unfold packedCoilsLen; omega
     rw [hq]
     show (Coils.items _).map _ = (Coils.items _).map _
-    rw [Coils.items_take ⟨data, bc.toNat * 8⟩ _ (Nat.le_refl _)]
+    rw [Coils.items_wire ⟨data, bc.toNat * 8⟩ h2]
   | readHoldingRegisters bc data h =>
     obtain ⟨h1, h2⟩ := he
     refine ⟨_, (Response.redecode_regs _ h1 h2).1, ?_⟩
@@ -799,7 +854,8 @@ theorem Response.Decoded.redecode {v : Response} (hd : Response.Decoded v) :
   | writeSingleCoil a => exact ⟨_, Response.decode_fixed_image.1 a, rfl⟩
   | writeMultipleCoils a q => exact ⟨_, Response.decode_fixed_image.2.1 a q, rfl⟩
   | writeSingleRegister a q => exact ⟨_, Response.decode_fixed_image.2.2.1 a q, rfl⟩
-  | writeMultipleRegisters a q => exact ⟨_, Response.decode_fixed_image.2.2.2 a q, rfl⟩
+  | writeMultipleRegisters a q => exact ⟨_, Response.decode_fixed_image.2.2.2.1 a q, rfl⟩
+  | readExceptionStatus s => exact ⟨_, Response.decode_fixed_image.2.2.2.2 s, rfl⟩
   | custom fc d ho =>
     refine ⟨_, ?_, rfl⟩
     show Response.decode ((FunctionCode.new fc).value :: d) = _
@@ -829,14 +885,16 @@ theorem Response.Decoded.redecode_exact {v : Response} (hd : Response.Decoded v)
     have hq : (Coils.mk data (bc.toNat * 8)).packedLen = bc.toNat := by
       show packedCoilsLen (bc.toNat * 8) = _; unfold packedCoilsLen; omega
     have := (Response.redecode_coils _ h1 h2).1
-    rw [hq, List.take_of_length_le (by show data.length ≤ _; omega)] at this
+    rw [Coils.wire_of_multiple _ (by show bc.toNat * 8 % 8 = 0; omega), hq,
+      List.take_of_length_le (by show data.length ≤ _; omega)] at this
     exact this
   | readDiscreteInputs bc data h =>
     obtain ⟨h1, h2⟩ := he
     have hq : (Coils.mk data (bc.toNat * 8)).packedLen = bc.toNat := by
       show packedCoilsLen (bc.toNat * 8) = _; unfold packedCoilsLen; omega
     have := (Response.redecode_coils _ h1 h2).2
-    rw [hq, List.take_of_length_le (by show data.length ≤ _; omega)] at this
+    rw [Coils.wire_of_multiple _ (by show bc.toNat * 8 % 8 = 0; omega), hq,
+      List.take_of_length_le (by show data.length ≤ _; omega)] at this
     exact this
   | readHoldingRegisters bc data h =>
     obtain ⟨h1, h2⟩ := he
@@ -856,7 +914,8 @@ theorem Response.Decoded.redecode_exact {v : Response} (hd : Response.Decoded v)
   | writeSingleCoil a => exact Response.decode_fixed_image.1 a
   | writeMultipleCoils a q => exact Response.decode_fixed_image.2.1 a q
   | writeSingleRegister a q => exact Response.decode_fixed_image.2.2.1 a q
-  | writeMultipleRegisters a q => exact Response.decode_fixed_image.2.2.2 a q
+  | writeMultipleRegisters a q => exact Response.decode_fixed_image.2.2.2.1 a q
+  | readExceptionStatus s => exact Response.decode_fixed_image.2.2.2.2 s
   | custom fc d ho =>
     show Response.decode ((FunctionCode.new fc).value :: d) = _
     rw [FunctionCode.value_new]
